@@ -390,6 +390,35 @@ fn run_standard(cx: &mut Ctx, args: &Args) {
             }
         }
     }
+    // directed at the border of class 1 (the proved file class, k_file_ok): "file:" + slashes / host + every
+    // sequence of <= 3 (quick) / 4 (thorough) tokens, without base and against non-file bases
+    {
+        let toks = ["/", "\\", "C:", "c|", "..", "%2E.", ".", "x", "?", "#"];
+        let pres = ["file:", "file:/", "file://", "file:///", "file://h", "fIle://localhost", "file://h/C:/", "file:///c:", "file://C:"];
+        let fbases = ["http://h/C:/d/e", "a://h"];
+        let fparsed: Vec<Url> = fbases.iter().map(|s| Url::parse(s).expect("directed base")).collect();
+        let depth = if args.tier == "thorough" { 4 } else { 3 };
+        let mut seqs: Vec<String> = vec![String::new()];
+        let mut level: Vec<String> = vec![String::new()];
+        for _ in 0..depth {
+            let mut next = vec![];
+            for s in &level {
+                for t in toks.iter() {
+                    next.push(format!("{}{}", s, t));
+                }
+            }
+            seqs.extend(next.iter().cloned());
+            level = next;
+        }
+        for (pi, pre) in pres.iter().enumerate() {
+            for (si, s) in seqs.iter().enumerate() {
+                let input = format!("{}{}", pre, s);
+                spec_vs_impl(cx, "std-directed-file", None, &input);
+                let bi = (pi + si) % fparsed.len();
+                spec_vs_impl(cx, "std-directed-file", Some((fbases[bi], &fparsed[bi])), &input);
+            }
+        }
+    }
     // bare references (empty, '?...', '#...') against every file base of the pool: outside class 1
     for (bi, b) in pool.iter().enumerate() {
         if b.starts_with("file:") {
